@@ -38,9 +38,17 @@ func main() {
 		fs.StringVar(&o.KnownPath, "known", "/verif/known_findings.json", "known findings file")
 		procs := fs.Int("procs", 1, "GOMAXPROCS")
 		runWall := fs.Duration("runwall", 120*time.Second, "watchdog per run")
+		dump := fs.String("dumphashes", "", "write one line per run (index, seed, hash) to this file")
 		fs.Parse(os.Args[2:])
 		runtime.GOMAXPROCS(*procs)
 		o.RunWall = *runWall
+		if *dump != "" {
+			f, err := os.Create(*dump)
+			if err == nil {
+				defer f.Close()
+				o.DumpHashes = f
+			}
+		}
 		sim.ExecWall = *runWall
 		os.Exit(sim.RunBatch(o))
 	case "replay":
